@@ -19,4 +19,5 @@ func TestC09(t *testing.T) {
 	s := hx.Begin(t, "C09")
 	defer s.End()
 	hx.Run(s, c09Hist, s.N(2500, 25000))
+	hx.Run(s, c09Any, s.N(1500, 15000))
 }
